@@ -60,7 +60,7 @@ func (inst *InstAlloca) Type() types.Type {
 	// Cache type if not present (or stale: AddrSpace or ElemType assigned after
 	// NewAlloca). Refreshing on one of the two fields only would make the result
 	// depend on when Type() happened to be called last.
-	if inst.Typ == nil || inst.Typ.AddrSpace != inst.AddrSpace || inst.Typ.ElemType != inst.ElemType {
+	if inst.Typ == nil || inst.Typ.AddrSpace != inst.AddrSpace || inst.Typ.ElemType == nil || !inst.Typ.ElemType.Equal(inst.ElemType) {
 		inst.Typ = types.NewPointer(inst.ElemType)
 		inst.Typ.AddrSpace = inst.AddrSpace
 	}
